@@ -27,26 +27,26 @@ type LScen struct {
 }
 
 type lifeRun struct {
-	rec    *Rec
-	mu     sync.Mutex
-	lis    *FakeListener
-	clk    *Clock
-	conns  map[int]*FakeConn
-	hgate  map[int]chan struct{}
-	hwait  map[int]bool
-	done   map[int]bool
-	refuse map[int]bool
-	pend   map[int][]byte // bytes of a packet being dribbled
-	wantNext map[int]bool  // the next handler invocation on this connection registers a continuation
-	sess   map[int][2]uint32 // open exchange of a connection: session id, next client sequence number
-	nsid   uint32
-	served chan struct{}
-	burst  int32   // bursts: completion events are noted without locks and written out once everything is parked
-	doneA  []int32 // per connection: goroutine finished (noted by the hook during a burst)
-	nextID int
-	base   G4
-	ret    bool
-	cancel context.CancelFunc
+	rec      *Rec
+	mu       sync.Mutex
+	lis      *FakeListener
+	clk      *Clock
+	conns    map[int]*FakeConn
+	hgate    map[int]chan struct{}
+	hwait    map[int]bool
+	done     map[int]bool
+	refuse   map[int]bool
+	pend     map[int][]byte    // bytes of a packet being dribbled
+	wantNext map[int]bool      // the next handler invocation on this connection registers a continuation
+	sess     map[int][2]uint32 // open exchange of a connection: session id, next client sequence number
+	nsid     uint32
+	served   chan struct{}
+	burst    int32   // bursts: completion events are noted without locks and written out once everything is parked
+	doneA    []int32 // per connection: goroutine finished (noted by the hook during a burst)
+	nextID   int
+	base     G4
+	ret      bool
+	cancel   context.CancelFunc
 }
 
 func (r *lifeRun) Get(ctx context.Context, remote net.Addr) ([]byte, tq.Handler, error) {
